@@ -364,7 +364,7 @@ Hypothesis Hnewside : forall j nj', ~ old w j -> w_nodes w' j = Some nj' ->
   (content_mode T (n_type nj') = Val MCharacters -> chars_content (n_content nj')).
 Hypothesis HLnd : NoDup (map fst L).
 Hypothesis HRnd : NoDup (map snd R).
-Hypothesis HLc : identifiable T w' c = true \/ L = [].
+Hypothesis HLc : identifiable T w' c = true \/ (forall p j, In (p, j) L -> assoc_get p (m_idents x) = None).
 (* the destination *)
 Hypothesis Hfront : pos = O -> identifiable_n T w n = false /\ (named T (n_type n) = true -> n_name cn0 <> SHORTN).
 Hypothesis Hmode : content_mode T (n_type n) <> Val MCharacters.
@@ -483,7 +483,7 @@ Qed.
 (* the new keys are not keys of the old index *)
 Lemma ci_L_fresh p j : In (p, j) L -> assoc_get p (m_idents x) = None.
 Proof.
-  intros Hin. destruct HLc as [Hid|HL]; [|rewrite HL in Hin; destruct Hin].
+  intros Hin. destruct HLc as [Hid|HL]; [|exact (HL p j Hin)].
   destruct (Hfree Hid) as (nm & Hsg & Hfr). apply ci_L_spec in Hin as (q & Hd & _ & ->). rewrite Hsg.
   destruct (assoc_get (path ++ (47 :: nm) ++ q) (m_idents x)) as [z|] eqn:Ez; [exfalso|reflexivity].
   apply (i4_exact _ _ _ HI m x Hx) in Ez as (_ & _ & Hspz).
@@ -696,10 +696,10 @@ Proof.
     - intros Hm. rewrite Hm in H3. cbn in H3. destruct (n_content nj') as [|[y|d] [|z r]]; try discriminate; [left; reflexivity|right; eexists; reflexivity]. }
   split.
   - eapply (copy_inv04 w w' w1 w3 self c n cn0 (N.to_nat pos) m x path L R ren v other); eauto.
-    + apply orb_true_iff in HLc as [Hl|Hl]; [left; exact Hl|right]. destruct L; [reflexivity|discriminate].
+    + apply orb_true_iff in HLc as [Hl|Hl]; [left; exact Hl|right]. destruct L; [intros p j []|discriminate].
     + intros Hp. destruct (Hfront Hp) as (H1 & H2). split; [exact H1|]. intros Hnm. rewrite Hcn0_name. exact (H2 Hnm).
   - eapply (copy_inv05 w w' w1 w3 self c n cn0 (N.to_nat pos) m x path L R ren v other); eauto.
-    + apply orb_true_iff in HLc as [Hl|Hl]; [left; exact Hl|right]. destruct L; [reflexivity|discriminate].
+    + apply orb_true_iff in HLc as [Hl|Hl]; [left; exact Hl|right]. destruct L; [intros p j []|discriminate].
     + intros Hp. destruct (Hfront Hp) as (H1 & H2). split; [exact H1|]. intros Hnm. rewrite Hcn0_name. exact (H2 Hnm).
 Qed.
 
